@@ -352,6 +352,11 @@ def unary_cases(ctx):
                 out.append(('round', a, sc, 'decimal'))
                 continue
         out.append(('round', a, r.choice([0, 1, 2, -1, -2, r.randint(-40, 40), r.randint(-6111, 6175)]), 'decimal'))
+    # scales far outside the range of the format and of 32-bit integers: null, never the number rounded at some other scale (seeded change C02_k: the scale
+    # went through a conversion to i32 that answers 0 when the value does not fit)
+    for a in ((False, 2567, -3), (True, 12345, -1), (False, 5, -1), (False, 0, 0), (False, 9995, -2)):
+        for sc in (2 ** 31, -2 ** 31 - 1, 3000000000, -3000000000, 2 ** 32, 2 ** 32 + 2, 10 ** 20, -10 ** 20, 10 ** 33, 6176, -6112, 2 ** 31 - 1, -2 ** 31):
+            out.append(('round', a, sc, 'decimal-scale'))
     return out
 
 
